@@ -156,6 +156,10 @@ func (s *scriptedBody) tailErr() error {
 		return io.ErrUnexpectedEOF
 	case "err":
 		return errInjected
+	case "ctxc":
+		return context.Canceled
+	case "ctxd":
+		return context.DeadlineExceeded
 	}
 	return io.EOF
 }
